@@ -24,6 +24,12 @@ pub fn line(l: &str) -> String {
                 let a = parse_rat(a).ok_or("bad-op")?;
                 h::bigrat_try_as_usize(&a, &int).map(|n| n.to_string())
             }
+            [op @ ("cadd" | "cmul" | "cdiv"), ar, ai, br, bi] => {
+                // Exact<Complex> on rational parts: `<op> a.re a.im b.re b.im` -> `re im`
+                let a = (parse_rat(ar).ok_or("bad-op")?, parse_rat(ai).ok_or("bad-op")?);
+                let b = (parse_rat(br).ok_or("bad-op")?, parse_rat(bi).ok_or("bad-op")?);
+                h::complex_op2(op, &a, &b, &int).map(|((re, im), e)| format!("{} {} {}", show_rat(&re), show_rat(&im), if e { "exact" } else { "approx" }))
+            }
             [op, a] => {
                 let a = parse_rat(a).ok_or("bad-op")?;
                 h::bigrat_op1(op, &a, &int).map(|(v, _)| show_rat(&v))
